@@ -162,6 +162,7 @@ CONFIGS = {
 class GraphAPI(Scenario):
     modules = ["mxlpy.model"]
     float_shim = ["mxlpy.model"]
+    isinstance_shim = ["mxlpy.model"]  # a symbolic value counts as a float in `isinstance(v, float)` tests
 
     def __init__(self, cfg, edges, missing_at, order):
         self.cfg = cfg
